@@ -20,6 +20,9 @@
 //!          server: `Listener::new`, target = local name of the returned listener
 //!
 //!   (actenv <fds> <pid> <names> <passed> x<address>)
+//!   (actenv2 (<fds> <pid> <names> x<address>) (<fds> <pid> <names> x<address>) <passed>)
+//!       two listeners created one after the other in ONE process, the environment changed in between
+//!       -> (listener2 <R> <R>)
 //!       fds, names = - | x<value>;  pid = - | (lit x<value>) | (self x<prefix> x<suffix>);
 //!       `passed` listening unix sockets `%D/fd3.sock`, `%D/fd4.sock`, … are inherited as 3, 4, …;
 //!       `Listener::new(address)` runs in a fresh child (`sh -c 'LISTEN_PID=<prefix>$$<suffix> exec …'`)
@@ -247,13 +250,61 @@ fn shell_safe(s: &str) -> bool {
 }
 
 fn run_actenv(ctx: &Ctx, l: &[Sx]) -> Sx {
+    let r = run_listeners(ctx, &l[1..4], &l[5], l[4].as_usize().unwrap(), None);
+    sx::tagged("listener", r)
+}
+
+/// `(actenv2 (<fds> <pid> <names> x<address>) (<fds> <pid> <names> x<address>) <passed>)`: ONE process creates
+/// two listeners in a row; it is started with the first environment and sets the second one itself in
+/// between.  Every `Listener::new` looks at the environment as it is then.
+///   -> (listener2 <R> <R>)
+fn run_actenv2(ctx: &Ctx, l: &[Sx]) -> Sx {
+    let a = l[1].as_list().unwrap();
+    let b = l[2].as_list().unwrap();
+    let r = run_listeners(ctx, &a[0..3], &a[3], l[3].as_usize().unwrap(), Some(b));
+    sx::tagged("listener2", r)
+}
+
+fn opt_arg(v: &Option<String>) -> String {
+    match v {
+        None => "-".to_string(),
+        Some(s) => format!("={}", s),
+    }
+}
+
+fn run_listeners(ctx: &Ctx, env1: &[Sx], address1: &Sx, passed: usize, second: Option<&[Sx]>) -> Vec<Sx> {
     let sub = Subst::new(ctx, "e");
-    let fds = opt_field(&l[1]);
-    let names = opt_field(&l[3]);
-    let passed = l[4].as_usize().unwrap();
-    let address = sub.apply(&l[5].as_str().unwrap());
+    let fds = opt_field(&env1[0]);
+    let names = opt_field(&env1[2]);
+    let address = sub.apply(&address1.as_str().unwrap());
     let out = format!("{}/report", sub.dir);
     let helper = helper_path();
+    let l = [Sx::Atom("actenv".into()), env1[0].clone(), env1[1].clone(), env1[2].clone()];
+    // the second environment travels as arguments
+    let mut extra: Vec<String> = Vec::new();
+    if let Some(b) = second {
+        extra.push(sub.apply(&b[3].as_str().unwrap()));
+        extra.push(opt_arg(&opt_field(&b[0])));
+        match &b[1] {
+            Sx::List(p) if p[0].as_atom() == Some("self") => {
+                extra.push("self".into());
+                extra.push(p[1].as_str().unwrap());
+                extra.push(p[2].as_str().unwrap());
+            }
+            Sx::List(p) if p[0].as_atom() == Some("lit") => {
+                extra.push("lit".into());
+                extra.push(p[1].as_str().unwrap());
+                extra.push(String::new());
+            }
+            _ => {
+                extra.push("-".into());
+                extra.push(String::new());
+                extra.push(String::new());
+            }
+        }
+        extra.push(opt_arg(&opt_field(&b[2])));
+    }
+    let sub_cmd = if second.is_some() { "listener2" } else { "listener" };
 
     let mut listeners = Vec::new();
     for i in 0..passed {
@@ -271,13 +322,14 @@ fn run_actenv(ctx: &Ctx, l: &[Sx]) -> Sx {
             cmd.arg("-c")
                 .arg(format!("LISTEN_PID={}$${} exec \"$0\" \"$@\"", pre, suf))
                 .arg(&helper)
-                .arg("listener")
+                .arg(sub_cmd)
                 .arg(&address)
-                .arg(&out);
+                .arg(&out)
+                .args(&extra);
         }
         other => {
             cmd = std::process::Command::new(&helper);
-            cmd.arg("listener").arg(&address).arg(&out);
+            cmd.arg(sub_cmd).arg(&address).arg(&out).args(&extra);
             match other {
                 Sx::List(p) if p[0].as_atom() == Some("lit") => {
                     cmd.env("LISTEN_PID", p[1].as_str().unwrap());
@@ -331,30 +383,38 @@ fn run_actenv(ctx: &Ctx, l: &[Sx]) -> Sx {
     let child = cmd.spawn().expect("spawn helper");
     let mut guard = ChildGuard::new(child);
     let st = guard.wait_timeout(Duration::from_secs(8));
-    let res = match st {
-        None => sx::atom("timeout"),
-        Some(_) => match std::fs::read_to_string(&out) {
-            Ok(line) => match sx::parse(&line) {
-                Some(Sx::List(r)) => match r[0].as_atom() {
-                    Some("ok") => {
-                        let mut name = sub.unapply(&r[4].as_str().unwrap_or_default());
-                        if r[1].as_atom() == Some("tcp") && r[2].as_atom() == Some("f") {
-                            name = "*".into(); // the kernel picked the port
-                        }
-                        sx::tagged("ok", vec![r[1].clone(), r[2].clone(), r[3].clone(), sx::xs(&name)])
+    let canon = |line: &str| -> Sx {
+        match sx::parse(line) {
+            Some(Sx::List(r)) => match r[0].as_atom() {
+                Some("ok") => {
+                    let mut name = sub.unapply(&r[4].as_str().unwrap_or_default());
+                    if r[1].as_atom() == Some("tcp") && r[2].as_atom() == Some("f") {
+                        name = "*".into(); // the kernel picked the port
                     }
-                    Some(tag) => sx::atom(tag),
-                    None => sx::atom("garbled"),
-                },
-                _ => sx::atom("garbled"),
+                    sx::tagged("ok", vec![r[1].clone(), r[2].clone(), r[3].clone(), sx::xs(&name)])
+                }
+                Some(tag) => sx::atom(tag),
+                None => sx::atom("garbled"),
             },
-            Err(_) => sx::atom("crashed"),
+            _ => sx::atom("garbled"),
+        }
+    };
+    let want = if second.is_some() { 2 } else { 1 };
+    let res: Vec<Sx> = match st {
+        None => vec![sx::atom("timeout"); want],
+        Some(_) => match std::fs::read_to_string(&out) {
+            Ok(text) => {
+                let mut v: Vec<Sx> = text.lines().map(canon).collect();
+                v.resize(want, sx::atom("garbled"));
+                v
+            }
+            Err(_) => vec![sx::atom("crashed"); want],
         },
     };
     drop(guard);
     drop(listeners);
     let _ = std::fs::remove_dir_all(&sub.dir);
-    sx::tagged("listener", vec![res])
+    res
 }
 
 // ---------------------------------------------------------------------------
@@ -531,8 +591,29 @@ fn xport_bridgecli(spec: &WorldSpec, dir: &str, chunks: Vec<Vec<u8>>, expect_fra
                         }
                         e2.store(true, Ordering::SeqCst);
                     });
+                    // job control must not be visible in the session: the bridge is stopped and continued
+                    // (SIGSTOP / SIGCONT: its blocking waits return EINTR) while it waits for the first
+                    // request and between the client's writes
+                    let bridge_pid = guard.as_ref().and_then(|g| g.child.as_ref()).map(|c| c.id() as i32).unwrap_or(0);
+                    let stop_cont = move |settle_ms: u64| {
+                        if bridge_pid > 1 {
+                            std::thread::sleep(Duration::from_millis(settle_ms));
+                            unsafe {
+                                libc::kill(bridge_pid, libc::SIGSTOP);
+                            }
+                            std::thread::sleep(Duration::from_millis(5));
+                            unsafe {
+                                libc::kill(bridge_pid, libc::SIGCONT);
+                            }
+                            std::thread::sleep(Duration::from_millis(5));
+                        }
+                    };
                     std::thread::spawn(move || {
-                        for c in chunks {
+                        stop_cont(60);
+                        for (i, c) in chunks.into_iter().enumerate() {
+                            if i > 0 && i < 4 {
+                                stop_cont(10);
+                            }
                             if w.write_all(&c).is_err() {
                                 break;
                             }
@@ -1058,6 +1139,43 @@ impl Suite for AddrSuite {
                 tags: vec!["kind:act3".into(), format!("act3:closed-{}", closed)],
             });
         }
+        // two listeners in one process, the activation environment changed in between: every
+        // `Listener::new` decides on the environment as it is at that moment
+        {
+            // (fds, pid, names): activated on 3, activated on 4 by name, and three ways of not being activated
+            let act3 = (Some("1"), pid_self("", ""), None);
+            let act3n = (Some("1"), pid_self("", ""), Some("varlink"));
+            let act4 = (Some("2"), pid_self("", ""), Some("x:varlink"));
+            let act5 = (Some("3"), pid_self("", ""), Some("a:b:varlink"));
+            let none = (None, sx::atom("-"), None);
+            let foreign = (Some("1"), pid_lit("1"), Some("varlink"));
+            let zero = (Some("0"), pid_self("", ""), None);
+            let child = (Some("1"), pid_self("", "0"), None); // the pid of somebody else (e.g. after fork)
+            let pairs = vec![
+                (act3.clone(), none.clone(), "act-not"),
+                (act3n.clone(), foreign.clone(), "act-not"),
+                (act3.clone(), child.clone(), "act-not"),
+                (act4.clone(), zero.clone(), "act-not"),
+                (none.clone(), act3.clone(), "not-act"),
+                (foreign.clone(), act4.clone(), "not-act"),
+                (child.clone(), act3n.clone(), "not-act"),
+                (act3.clone(), act4.clone(), "act-act"),
+                (act4.clone(), act3.clone(), "act-act"),
+                (act4.clone(), act5.clone(), "act-act"),
+                (act3.clone(), act3n.clone(), "act-act"),
+                (none.clone(), foreign.clone(), "not-not"),
+                (zero.clone(), none.clone(), "not-not"),
+            ];
+            let addrs = [("unix:%D/own1.sock", "unix:%D/own2.sock"), ("unix:%D/own1.sock", "tcp:127.0.0.1:0"), ("tcp:127.0.0.1:0", "unix:@%Aown2")];
+            for (i, (a, b, tag)) in pairs.into_iter().enumerate() {
+                let (a1, a2) = addrs[i % addrs.len()];
+                let e = |t: &(Option<&str>, Sx, Option<&str>), addr: &str| sx::list(vec![sx::opt_str(t.0), t.1.clone(), sx::opt_str(t.2), sx::xs(addr)]);
+                cases.push(Case {
+                    input: sx::tagged("actenv2", vec![e(&a, a1), e(&b, a2), sx::nat(4)]),
+                    tags: vec!["kind:actenv2".into(), format!("actenv2:{}", tag)],
+                });
+            }
+        }
         // empty names around `varlink` in LISTEN_FDNAMES (positions count empty pieces)
         for names in ["::varlink", "a::varlink", "varlink::", ":varlink", "a:varlink:", ":a:varlink"] {
             for fds in ["2", "4"] {
@@ -1080,6 +1198,7 @@ impl Suite for AddrSuite {
         match l[0].as_atom().unwrap_or("") {
             "parse" => run_parse(ctx, l),
             "actenv" => run_actenv(ctx, l),
+            "actenv2" => run_actenv2(ctx, l),
             "xport" => run_xport(ctx, l),
             "act3" => run_act3(ctx, l),
             "actlisten" => run_actlisten(ctx, l),
